@@ -126,7 +126,10 @@ def generate(rng, tier, cls):
 
     return {'actors': [prod], 'schedule': [], 'faults': [], 'configs': cfgs,
             'buffer_inputs': rng.chance(0.3),
-            'stream_extras': gen.gen_stream_extras(rng)}
+            'stream_extras': gen.gen_stream_extras(rng),
+            'again': [rng.randint(1, 4), rng.choice(['close', 'throw',
+                                                     'drop'])]
+            if rng.chance(0.1) else None}
 
 
 def sweep_tasks(tier, master):
@@ -242,11 +245,36 @@ def execute(scn, L):
                 actors[0]['file'])
 
         sx = scn.get('stream_extras') or {}
-        recs, end, exc = read_all(
-            wk, data, block_size=bs, stream=kind, buf=buf, actor='cfg',
-            prefix=sx.get('prefix', 0) if isinstance(sx.get('prefix', 0), int)
-            else 0, late_rewind=bool(sx.get('late_rewind')),
-            extras=sx if isinstance(sx, dict) else None)
+        again = scn.get('again')
+
+        if isinstance(again, list) and len(again) == 2 and \
+           isinstance(again[0], int) and not sx.get('prefix'):
+            # the records of a second pass of the same reader object, after
+            # a first pass that was abandoned after a few records (iterator
+            # closed / an exception thrown into it / dropped) and a rewind:
+            # where the first pass stopped relative to the read-ahead blocks
+            # must not matter either
+            from dsim.actors import read_twice
+            recs, end, exc = read_twice(
+                wk, data, block_size=bs, actor='cfg', stream=kind, buf=buf,
+                abandon=max(1, again[0]), abandon_how=str(again[1]),
+                extras={k: v for k, v in sx.items()
+                        if k in ('seek_none', 'short_hdr')}
+                if isinstance(sx, dict) else None)
+            out.probe('second_pass_after_abandoned_first')
+            # (a reader object that is iterated again goes on counting
+            # lines where it was: line numbers of a second pass are not
+            # compared)
+            recs = [dict(g, line=r.get('line')) if isinstance(g, dict) and
+                    'line' in g else g for g, r in zip(recs, ref)] + \
+                recs[len(ref):]
+        else:
+            recs, end, exc = read_all(
+                wk, data, block_size=bs, stream=kind, buf=buf, actor='cfg',
+                prefix=sx.get('prefix', 0)
+                if isinstance(sx.get('prefix', 0), int) else 0,
+                late_rewind=bool(sx.get('late_rewind')),
+                extras=sx if isinstance(sx, dict) else None)
         out.absorb(wk)
         out.evals += 1
         info = {'pad': pad, 'block_size': bs, 'stream': kind, 'buf': buf,
